@@ -158,7 +158,13 @@ pub fn doc_check(rd: &Rendered, sp: &Sp, cfg: &Cfg, step: u8) -> DocReport {
     };
     // C14 (needs C02/C03 alignment)
     if rep.c02.is_violated() || rep.c03.is_violated() {
-        rep.c14 = V::Skipped("C02/C03 failed on this document (alignment undefined)");
+        // the character alignment is undefined; fall back to the literal reading of the property:
+        // the trimmed stretches occur verbatim in the output, in order (greedy leftmost search
+        // finds an embedding whenever one exists)
+        rep.c14 = match c14_ordered_search(rd, step, &ext, &out) {
+            Ok(_) => V::Skipped("C02/C03 failed on this document; stretches still occur in order"),
+            Err(m) => V::Violated(m),
+        };
     } else {
         rep.c14 = match c14_check(rd, step, &ext, &out) {
             Ok(0) => V::NA,
@@ -580,11 +586,101 @@ pub fn parse_list_json(js: &str) -> Result<Vec<Item>, String> {
     Ok(items)
 }
 
+/// Remove every SGR escape sequence (`ESC [ ... m`), whatever colours are used.
 pub fn strip_colors(s: &str) -> String {
-    s.replace("\x1b[0m", "")
-        .replace("\x1b[31m", "")
-        .replace("\x1b[32m", "")
-        .replace("\x1b[33m", "")
+    let mut out = String::with_capacity(s.len());
+    let mut rest = s;
+    while let Some(i) = rest.find("\x1b[") {
+        out.push_str(&rest[..i]);
+        let after = &rest[i + 2..];
+        match after.find('m') {
+            Some(j) if after[..j].chars().all(|c| c.is_ascii_digit() || c == ';') => rest = &after[j + 1..],
+            _ => {
+                out.push_str("\x1b[");
+                rest = after;
+            }
+        }
+    }
+    out.push_str(rest);
+    out
+}
+
+/// All highlighted spans of a pretty listing, in order: text between a non-reset SGR sequence and
+/// the next reset, except the `_start` / `‾end` marker words (which are coloured too).
+pub fn highlighted_spans(pretty: &str) -> Vec<String> {
+    let mut v = vec![];
+    let mut rest = pretty;
+    while let Some(i) = rest.find("\x1b[") {
+        let after = &rest[i + 2..];
+        let Some(j) = after.find('m') else { break };
+        let code = &after[..j];
+        let body = &after[j + 1..];
+        if code == "0" {
+            rest = body;
+            continue;
+        }
+        let Some(k) = body.find("\x1b[0m") else { break };
+        let span = &body[..k];
+        if span != "_start" && span != "‾end" {
+            v.push(span.to_string());
+        }
+        rest = &body[k + 4..];
+    }
+    v
+}
+
+/// C16: one `annotated_code_block` against the region it renders, derived from the property
+/// text only: exactly the source lines first..last with tabs expanded to four spaces, each
+/// behind a prefix of one fixed width that holds the 1-based line number, framed by a `_start`
+/// line and an `‾end` line whose marker columns are prefix width + column of the first / last
+/// removed character (tab = 4; compared only when the text left of the marker is ASCII).
+/// Returns the number of marker lines whose column was compared.
+pub fn check_item_block(t: &str, start: usize, end: usize, block: &str) -> Result<usize, String> {
+    let ls = split_lines(t);
+    let l0 = line_of(&ls, start);
+    let last = t[..end].char_indices().last().map(|x| x.0).unwrap_or(start);
+    let l1 = ls.iter().position(|(s, e)| *s <= last && last <= *e).unwrap();
+    let lines: Vec<&str> = block.split('\n').collect();
+    let n_src = l1 - l0 + 1;
+    if lines.len() != n_src + 2 {
+        return Err(format!("{} lines in the block, expected {} source lines framed by two marker lines", lines.len(), n_src));
+    }
+    let width = |s: &str| -> usize { s.chars().map(|c| if c == '\t' { 4 } else { 1 }).sum() };
+    let mut w: Option<usize> = None;
+    for k in 0..n_src {
+        let src = t[ls[l0 + k].0..ls[l0 + k].1].replace('\t', "    ");
+        let line = lines[k + 1];
+        let Some(prefix) = line.strip_suffix(src.as_str()) else {
+            return Err(format!("line {} of the block {:?} does not show source line {} {:?}", k + 1, trunc(line, 80), l0 + k + 1, trunc(&src, 80)));
+        };
+        let pw = prefix.chars().count();
+        match w {
+            None => w = Some(pw),
+            Some(x) if x != pw => return Err(format!("line-number column is not fixed-width ({} vs {} characters)", x, pw)),
+            _ => {}
+        }
+        let digits: String = prefix.chars().filter(|c| c.is_ascii_digit()).collect();
+        let runs = prefix.split(|c: char| !c.is_ascii_digit()).filter(|r| !r.is_empty()).count();
+        if runs != 1 || digits != (l0 + k + 1).to_string() {
+            return Err(format!("line {} of the block is labelled {:?}, expected line number {}", k + 1, prefix, l0 + k + 1));
+        }
+    }
+    let w = w.unwrap_or(0);
+    let mut compared = 0;
+    for (line, word, left) in [(lines[0], "_start", &t[ls[l0].0..start]), (lines[n_src + 1], "‾end", &t[ls[l1].0..last])] {
+        let body = line.trim_start_matches(' ');
+        if body != word {
+            return Err(format!("marker line {:?} is not spaces followed by {}", trunc(line, 80), word));
+        }
+        if left.is_ascii() {
+            compared += 1;
+            let col = line.len() - body.len();
+            if col != w + width(left) {
+                return Err(format!("{} marker in column {}, expected {} (prefix width {} + column {})", word, col, w + width(left), w, width(left)));
+            }
+        }
+    }
+    Ok(compared)
 }
 
 /// Split the pretty listing into item blocks (text after each header line, without the final
@@ -705,7 +801,9 @@ pub fn list_check(rd: &Rendered, sp: &Sp, cfg: &Cfg, step: u8, c15_space: bool, 
     rep.n_ready_items = items_la.iter().filter(|i| i.ready).count();
     rep.n_pending_items = items_la.iter().filter(|i| !i.ready).count();
 
-    let mut c16 = if has_cr { V::Skipped("CR in a listing document") } else { V::Held };
+    // documents with CR characters: JSON structure, line ranges and pretty/JSON agreement are
+    // judged; the rendering of the lines themselves is not (what a CR looks like is unspecified)
+    let mut c16 = V::Held;
     // items vs R-render of the region the item claims (regions taken from the hook markers when
     // available, else from the reference regions if counts agree)
     let markers_of = |evs: &[Event], all: bool| -> Option<Vec<(usize, usize, bool)>> {
@@ -747,63 +845,66 @@ pub fn list_check(rd: &Rendered, sp: &Sp, cfg: &Cfg, step: u8, c15_space: bool, 
             if e <= s || *e > t.len() || !t.is_char_boundary(*s) || !t.is_char_boundary(*e) {
                 continue;
             }
-            let (want, cmp_start, cmp_end) = render_item(t, *s, *e);
-            let got_lines: Vec<&str> = it.block.split('\n').collect();
-            let want_lines: Vec<&str> = want.split('\n').collect();
-            let n = want_lines.len();
-            let mut ok = got_lines.len() == n;
-            if ok {
-                for k in 0..n {
-                    let is_marker = k == 0 || k == n - 1;
-                    if is_marker {
-                        let comparable = if k == 0 { cmp_start } else { cmp_end };
-                        if !comparable {
-                            // non-ASCII text left of the marker: only the marker word is checked
-                            let word = if k == 0 { "_start" } else { "‾end" };
-                            if got_lines[k].trim_start_matches(' ') != word {
-                                ok = false;
-                            }
-                            continue;
-                        }
-                        rep.marker_lines_compared += 1;
-                    }
-                    if got_lines[k] != want_lines[k] {
-                        ok = false;
+            if has_cr {
+                let (f, l) = (line_no(t, *s), line_no(t, e.saturating_sub(1).max(*s)));
+                if (it.first, it.last) != (f, l) {
+                    c16 = V::Violated(format!("line_range [{}, {}] of an item whose region spans lines {}..{}", it.first, it.last, f, l));
+                    break;
+                }
+                continue;
+            }
+            match check_item_block(t, *s, *e, &it.block) {
+                Ok(n) => {
+                    rep.marker_lines_compared += n;
+                    let (f, l) = (line_no(t, *s), line_no(t, e.saturating_sub(1).max(*s)));
+                    if (it.first, it.last) != (f, l) {
+                        c16 = V::Violated(format!("line_range [{}, {}] of an item that shows lines {}..{}", it.first, it.last, f, l));
+                        break;
                     }
                 }
-            }
-            if !ok {
-                c16 = V::Violated(format!(
-                    "item for region {}..{} renders as {:?}, expected {:?}",
-                    s,
-                    e,
-                    trunc(&it.block, 400),
-                    trunc(&want, 400)
-                ));
-                break;
+                Err(m) => {
+                    c16 = V::Violated(format!("item for region {}..{}: {} :: block {:?}", s, e, m, trunc(&it.block, 400)));
+                    break;
+                }
             }
         }
         if c16 != V::Held {
             break;
         }
-        // pretty form with colours stripped == headers + JSON blocks
-        let stripped = strip_colors(pretty);
-        let mut want = String::new();
-        for (k, it) in items.iter().enumerate() {
-            want.push_str(&format!(
-                "\n-------- [ {} ] {} --------\n{}",
-                k + 1,
-                if it.ready { " Ready " } else { "Pending" },
-                it.block
-            ));
+        // pretty form with colour codes stripped == JSON code blocks, item by item: the blocks must
+        // occur in the stripped pretty text in order, each starting at a line start; when the
+        // header lines have the known format the whole text is compared exactly
+        if has_cr {
+            continue;
         }
-        want.push('\n');
-        if stripped != want {
-            c16 = V::Violated(format!(
-                "pretty form (colours stripped) != headers + JSON code blocks: {:?} vs {:?}",
-                trunc(&stripped, 300),
-                trunc(&want, 300)
-            ));
+        let stripped = strip_colors(pretty);
+        let mut pos = 0usize;
+        for (k, it) in items.iter().enumerate() {
+            match stripped[pos..].find(it.block.as_str()) {
+                Some(i) if pos + i == 0 || stripped.as_bytes()[pos + i - 1] == b'\n' => pos += i + it.block.len(),
+                _ => {
+                    c16 = V::Violated(format!(
+                        "code block of item {} does not occur (in order, at a line start) in the pretty form with colour codes stripped: {:?} vs {:?}",
+                        k + 1,
+                        trunc(&it.block, 300),
+                        trunc(&stripped, 300)
+                    ));
+                    break;
+                }
+            }
+        }
+        if c16 == V::Held {
+            if let Some(blocks) = split_pretty(&stripped) {
+                let same = blocks.len() == items.len()
+                    && blocks.iter().zip(items.iter()).all(|((_, ready, body), it)| *ready == it.ready && *body == it.block);
+                if !same {
+                    c16 = V::Violated(format!(
+                        "pretty form (colours stripped) and JSON form differ item by item: {:?} vs {} JSON items",
+                        trunc(&stripped, 300),
+                        items.len()
+                    ));
+                }
+            }
         }
     }
     if items_la.is_empty() && items_l.is_empty() && c16 == V::Held {
@@ -813,6 +914,7 @@ pub fn list_check(rd: &Rendered, sp: &Sp, cfg: &Cfg, step: u8, c15_space: bool, 
 
     // ---------------- C15
     if c15_space {
+        let refr: Vec<(usize, usize)> = exp_ready.iter().map(|r| (r.start, r.end)).collect();
         let cm: Option<Vec<(usize, usize)>> = ev_c.iter().find_map(|e| match e {
             Event::CleanMarkers { markers, .. } => Some(markers.iter().map(|(s, e, _)| (*s, *e)).collect()),
             _ => None,
@@ -827,61 +929,42 @@ pub fn list_check(rd: &Rendered, sp: &Sp, cfg: &Cfg, step: u8, c15_space: bool, 
         });
         rep.n_markers = cm.as_ref().map(|m| m.len()).unwrap_or(0);
         let mut v = V::Held;
-        if !lengths_ok {
-            v = V::Violated("the text clean deleted before whitespace tidying is not exactly the marked regions (lengths do not add up)".into());
-        } else if lj1 != lj2 {
+        let want: Vec<(usize, usize)> = refr.iter().map(|(s, e)| (line_no(t, *s), line_no(t, e.saturating_sub(1).max(*s)))).collect();
+        let got: Vec<(usize, usize)> = items_l.iter().map(|i| (i.first, i.last)).collect();
+        if lj1 != lj2 {
             v = V::Violated("list is not a pure function: two calls with a clean and a list_all in between differ".into());
         } else if items_l.iter().any(|i| !i.ready) {
             v = V::Violated("plain list contains a Pending item".into());
-        } else {
-            match cm {
-                None => v = V::Skipped("CleanMarkers hook event not seen"),
+        } else if got != want {
+            v = V::Violated(format!(
+                "list items (first line, last line) {:?} != regions of the ready elements {:?} (one per default-strategy element, two per unwrapped element, none nested)",
+                got, want
+            ));
+        } else if !has_cr {
+            // highlighted text == text of the regions (tabs shown as four spaces)
+            let hl = highlighted_spans(&lp).join("\n");
+            let regions: Vec<String> = refr.iter().map(|(s, e)| t[*s..*e].replace('\t', "    ")).collect();
+            let all = regions.join("\n");
+            if hl != all {
+                v = V::Violated(format!(
+                    "highlighted text {:?} != text of the regions {:?}",
+                    trunc(&hl, 300),
+                    trunc(&all, 300)
+                ));
+            }
+        }
+        // clean side: the bytes clean deletes before whitespace tidying are exactly those regions
+        if v == V::Held {
+            match &cm {
+                None => {}
                 Some(cm) => {
-                    let want: Vec<(usize, usize)> = cm
-                        .iter()
-                        .map(|(s, e)| (line_no(t, *s), line_no(t, e.saturating_sub(1).max(*s))))
-                        .collect();
-                    let got: Vec<(usize, usize)> = items_l.iter().map(|i| (i.first, i.last)).collect();
-                    if got != want {
+                    if union(cm.clone()) != union(refr.clone()) {
                         v = V::Violated(format!(
-                            "list items {:?} != regions clean deletes {:?} (line ranges of the markers applied by clean)",
-                            got, want
+                            "clean deletes {:?} before whitespace tidying, but the listed / reference regions are {:?}",
+                            cm, refr
                         ));
-                    } else if has_cr {
-                        // CR characters: line ranges compared, highlighting not (str::lines drops CR)
-                    } else {
-                        // highlighted text == region text
-                        match split_pretty(&lp) {
-                            None => v = V::Violated("pretty list does not have the header/item structure".into()),
-                            Some(blocks) => {
-                                if blocks.len() != cm.len() {
-                                    v = V::Violated(format!("pretty list has {} items, clean deletes {} regions", blocks.len(), cm.len()));
-                                } else {
-                                    for ((_, ready, body), (s, e)) in blocks.iter().zip(cm.iter()) {
-                                        let hl = highlighted(body, *ready);
-                                        let region = t[*s..*e].replace('\t', "    ");
-                                        if hl != region {
-                                            v = V::Violated(format!(
-                                                "highlighted text {:?} != text of the deleted region {:?}",
-                                                trunc(&hl, 200),
-                                                trunc(&region, 200)
-                                            ));
-                                            break;
-                                        }
-                                    }
-                                }
-                            }
-                        }
-                    }
-                    // both sides against the reference regions
-                    if v == V::Held {
-                        let refr: Vec<(usize, usize)> = exp_ready.iter().map(|r| (r.start, r.end)).collect();
-                        if cm != refr {
-                            v = V::Violated(format!(
-                                "regions deleted by clean {:?} != reference regions {:?} (list agrees with clean)",
-                                cm, refr
-                            ));
-                        }
+                    } else if !lengths_ok {
+                        v = V::Violated("the text clean deleted before whitespace tidying is not exactly the marked regions (lengths do not add up)".into());
                     }
                 }
             }
